@@ -17,6 +17,7 @@ FILLER = ["lorem", "ipsum", "dolor", "sit", "amet", "etc", "var", "log", "up", "
 PW_SEPS = [": ", ":", " : ", "=", " = ", "==", "=\"", " = \"", ": \"", " --md5 ", " ", "   ", ":\"", "\"=\""]
 PW_KEYS = ["password", "passwords", "password_1", "passwordFile", "db_password", "rootpassword"]
 SECRET_CHARS = "abcXYZ019_!@#$%^&*()+=/-"
+KW_AFFIX = ["", "vv", "gj", "_", "Vg"]
 IP_SUFFIX = ["", "", "", ":80", ":65535", "/24", "/8", ".", ","]
 SAFE_MARK = set("GHIJKLMNOPQRSTUVWXYZgijnquvz_!")   # never part of hostN.example.com / keywordN / hex / digits / ********
 FQDNS = ["srvq7.lab.zzcorp.test", "nodeq1.zz-corp.test", "quiz9.jj.nn.uu.test", "jjhostq.test", "qqlocalz"]
@@ -141,6 +142,9 @@ def gen_line(rng, cfg, tag, kinds=None, ip_pool=None, mac_pool=None, host_pool=N
             else:
                 v = rng.choice(cfg["keywords"])
             shown = v
+            if k == "kw" and not plain_tokens and rng.random() < 0.35:
+                # a keyword is a plain substring: also inside a longer word (affixes over letters no keyword or substitute uses)
+                shown = rng.choice(KW_AFFIX) + v + rng.choice(KW_AFFIX)
         elif k == "pw":
             if has_pw:
                 k, v, shown = "fill", "pw2", "pw2"
